@@ -74,8 +74,14 @@ class AppMixin:
         await self.sim.hook(self.name, "on_state_change")
 
     async def should_replay(self, historical_replay_msg):
-        self.sim.rec("should_replay", self.name, historical_replay_msg.get(FTag.MsgSeqNum, None))
-        await self.sim.hook(self.name, "should_replay")
+        seq = historical_replay_msg.get(FTag.MsgSeqNum, None)
+        self.sim.rec("should_replay", self.name, seq)
+        try:
+            await self.sim.hook(self.name, "should_replay")
+        except Exception:
+            # injected handler failure: the application neither agreed nor declined to replay this number
+            self.sim.replay_hook_failed.add(str(seq))
+            raise
         if self.replay_filter is not None:
             return bool(self.replay_filter(historical_replay_msg))
         return True
